@@ -121,9 +121,275 @@ _CMPOPS = {ast.Eq: '==', ast.NotEq: '!=', ast.Lt: '<', ast.LtE: '<=', ast.Gt: '>
 _UNOPS = {ast.Not: 'not', ast.USub: '-', ast.UAdd: '+', ast.Invert: '~'}
 
 
+UNSUPPORTED = ('unsupported',)
+
+# The vocabulary of the rules: functions of the repository that checks recognise by name as opaque operations
+# (confirmed on the reference tree).  A call to one of these stays a call term; every other helper that resolves
+# to a definition in the same module / class / enclosing function is inlined, so extracting or renaming private
+# helpers does not change what the rules see.
+VOCABULARY = frozenset('''
+__eq__ __getitem__ __init__ __or__ __repr__ __setattr__ __str__ __truediv__ _binarize _chunks _is_modifier
+_is_punct _is_type_raised _mathml_subtree _parse_ptb _process_tree _prolog_string _resolve_dependencies
+_type_check _unary_rule_symbol add_common_parser_arguments apply_binary_rules apply_category_filters
+apply_unary_rules arg auto_extended_of auto_of build_ccg_tree cats check child clear_features conll_of data
+decode denormalize deriv_of find_node_by_id functor get_global_language guess_combinator_by_triplet init_config
+is_atomic is_functor is_ignorable is_leaf is_unary is_variable items keys left_child load main make_binary
+make_terminal make_unary maybe_add_and_get nargs next next_node parse parse_args parse_leaf parse_sentence
+parse_tree peek ptb_of read_jigg_xml read_params read_xml rec retrieve_tree right_child run scaffold spid
+to_jigg_xml to_string token tokens traverse_cat unifies unify values word xml_of normalize
+'''.split())
+
+
+def _contains(t, x):
+    if t is x:
+        return True
+    if isinstance(t, tuple):
+        return any(_contains(y, x) for y in t)
+    return False
+
+
+def _literal_term(node):
+    """term of an AST literal made only of constants (nested tuples / lists / sets / dicts / frozenset(...)), else None"""
+    if isinstance(node, ast.Constant):
+        return ('const', node.value)
+    if isinstance(node, ast.UnaryOp) and isinstance(node.op, ast.USub) and isinstance(node.operand, ast.Constant) \
+            and isinstance(node.operand.value, (int, float)):
+        return ('const', -node.operand.value)
+    if isinstance(node, (ast.Tuple, ast.List, ast.Set)):
+        items = [_literal_term(e) for e in node.elts]
+        if any(i is None for i in items):
+            return None
+        return ({ast.Tuple: 'tuple', ast.List: 'list', ast.Set: 'set'}[type(node)], tuple(items))
+    if isinstance(node, ast.Dict):
+        ks = [_literal_term(k) if k is not None else None for k in node.keys]
+        vs = [_literal_term(v) for v in node.values]
+        if any(k is None for k in ks) or any(v is None for v in vs):
+            return None
+        return ('dict', tuple(zip(ks, vs)))
+    if isinstance(node, ast.Call) and isinstance(node.func, ast.Name) and node.func.id in ('frozenset', 'set', 'tuple') \
+            and len(node.args) == 1 and not node.keywords:
+        inner = _literal_term(node.args[0])
+        if inner is not None and inner[0] in ('tuple', 'list', 'set'):
+            return ('set' if node.func.id != 'tuple' else 'tuple', inner[1])
+    return None
+
+
+def replace_term(t, pred, new):
+    """copy of term t with every subterm satisfying pred replaced by new (or new(subterm) when callable)"""
+    if isinstance(t, tuple):
+        if t and isinstance(t[0], str) and pred(t):
+            return new(t) if callable(new) else new
+        return tuple(replace_term(x, pred, new) for x in t)
+    return t
+
+
+def mk_comp(kind, elt, gens):
+    """comprehension term; a single-generator comprehension over another single-generator comprehension is fused:
+    [f(r) for r in [g(c) for c in xs if p(c)] if q(r)]  ==  [f(g(c)) for c in xs if p(c) if q(g(c))]"""
+    if len(gens) == 1:
+        it, conds = gens[0]
+        if it[0] in ('listcomp', 'genexp') and len(it[2]) == 1:
+            inner_elt, (inner_it, inner_conds) = it[1], it[2][0]
+            is_elem = lambda x: x[0] == 'elem' and x[1] == it
+            elt2 = replace_term(elt, is_elem, inner_elt)
+            conds2 = tuple(replace_term(c, is_elem, inner_elt) for c in conds)
+            return mk_comp(kind, elt2, ((inner_it, tuple(inner_conds) + conds2),))
+    return (kind, elt, gens)
+
+
+SKIP = ('skip-iteration',)
+
+
+def _mutable_literal(t):
+    if t[0] in ('list', 'dict'):
+        return True
+    if t[0] == 'set':
+        return True
+    return False
+
+
+_READ_METHODS = {'get', 'items', 'keys', 'values', 'index', 'count', 'copy', '__contains__', 'issubset', 'issuperset',
+                 'union', 'intersection', 'difference', 'isdisjoint', 'join', 'startswith', 'endswith'}
+_READ_FUNCS = {'len', 'sorted', 'set', 'frozenset', 'tuple', 'list', 'dict', 'enumerate', 'iter', 'any', 'all', 'max', 'min',
+               'sum', 'reversed', 'zip', 'map', 'filter', 'isinstance', 'repr', 'str'}
+
+
+def _read_only_uses(modtree, name):
+    """every occurrence of module-level `name` (other than its one binding) is a read that cannot mutate or leak it"""
+    binds = 0
+    for n in ast.walk(modtree):
+        if isinstance(n, (ast.Global, ast.Nonlocal)) and name in n.names:
+            return False
+        if isinstance(n, ast.arg) and n.arg == name:
+            return False
+        if not (isinstance(n, ast.Name) and n.id == name):
+            continue
+        if not isinstance(n.ctx, ast.Load):
+            binds += 1
+            if binds > 1:
+                return False
+            continue
+        par = getattr(n, '_parent', None)
+        if isinstance(par, ast.Subscript) and par.value is n and isinstance(par.ctx, ast.Load):
+            continue
+        if isinstance(par, ast.Compare) and n in par.comparators and all(isinstance(o, (ast.In, ast.NotIn)) for o in par.ops):
+            continue
+        if isinstance(par, ast.Attribute) and par.attr in _READ_METHODS:
+            continue
+        if isinstance(par, (ast.For, ast.comprehension)) and par.iter is n:
+            continue
+        if isinstance(par, ast.Call) and n in par.args and isinstance(par.func, ast.Name) and par.func.id in _READ_FUNCS:
+            continue
+        return False
+    return True
+
+
+def _forkable(fd):
+    """can the body be run by the statement walker (no generators / nested class tricks)?"""
+    for n in ast.walk(fd):
+        if isinstance(n, (ast.Yield, ast.YieldFrom, ast.Await, ast.Global, ast.Nonlocal, ast.Try, ast.With)):
+            return False
+    return True
+
+
+def concat_str(l, r):
+    """'a' + x + 'b'  ->  one template term, when at least one side is known to be text"""
+    def parts(t):
+        if t[0] == 'const' and isinstance(t[1], str):
+            return [t[1]] if t[1] else []
+        if t[0] == 'fstr':
+            return list(t[1])
+        if t[0] == 'call' and t[1] == ('name', 'str') and len(t[2]) == 1 and not t[3]:
+            return [t[2][0]]
+        return None
+    a, b = parts(l), parts(r)
+    if a is None and b is None:
+        return None
+    if a is None:
+        if l[0] == 'const':
+            return None
+        a = [l]
+    if b is None:
+        if r[0] == 'const':
+            return None
+        b = [r]
+    return mk_fstr(a + b)
+
+
+def mk_fstr(parts):
+    out = []
+    for p in parts:
+        if isinstance(p, str) and out and isinstance(out[-1], str):
+            out[-1] += p
+        elif isinstance(p, str) and not p:
+            continue
+        else:
+            if isinstance(p, tuple) and p[0] == 'call' and p[1] == ('name', 'str') and len(p[2]) == 1 and not p[3]:
+                p = p[2][0]      # str(x) inside a template formats like x
+            out.append(p)
+    return ('fstr', tuple(out))
+
+
+def str_parts(t):
+    """canonical parts list of a text-building term (f-string, + chains, sep.join of a literal sequence, str(x)),
+    adjacent literals merged; None when `t` is not recognisably text"""
+    def go(t):
+        if t[0] == 'const' and isinstance(t[1], str):
+            return [t[1]]
+        if t[0] == 'fstr':
+            out = []
+            for p_ in t[1]:
+                if isinstance(p_, str):
+                    out.append(p_)
+                else:
+                    sub = go(p_)
+                    out.extend(sub if sub is not None else [p_])
+            return out
+        if t[0] == 'binop' and t[1] == '+':
+            a, b = go(t[2]), go(t[3])
+            if a is None and b is None:
+                return None
+            return (a if a is not None else [t[2]]) + (b if b is not None else [t[3]])
+        if t[0] == 'call' and t[1] == ('name', 'str') and len(t[2]) == 1 and not t[3]:
+            sub = go(t[2][0])
+            return sub if sub is not None else [t[2][0]]
+        if t[0] == 'call' and t[1][0] == 'attr' and t[1][2] == 'join' and t[1][1][0] == 'const' \
+                and isinstance(t[1][1][1], str) and len(t[2]) == 1 and t[2][0][0] in ('list', 'tuple'):
+            out = []
+            for i, e in enumerate(t[2][0][1]):
+                if i:
+                    out.append(t[1][1][1])
+                sub = go(e)
+                out.extend(sub if sub is not None else [e])
+            return out
+        return None
+    parts = go(t)
+    if parts is None:
+        return None
+    out = []
+    for p_ in parts:
+        if isinstance(p_, str):
+            if not p_:
+                continue
+            if out and isinstance(out[-1], str):
+                out[-1] += p_
+                continue
+        out.append(p_)
+    return out
+
+
+def format_call(fmt, args, kws):
+    """'{}={}'.format(a, b) -> template term (only plain {} / {0} / {name} fields without conversions)"""
+    import string
+    parts = []
+    auto = 0
+    try:
+        for lit, field, spec, conv in string.Formatter().parse(fmt):
+            if lit:
+                parts.append(lit)
+            if field is None:
+                continue
+            if spec or conv:
+                return None
+            if field == '':
+                if auto >= len(args):
+                    return None
+                parts.append(args[auto])
+                auto += 1
+            elif field.isdigit():
+                if int(field) >= len(args):
+                    return None
+                parts.append(args[int(field)])
+            else:
+                kw = dict(kws)
+                if field not in kw:
+                    return None
+                parts.append(kw[field])
+    except ValueError:
+        return None
+    return mk_fstr(parts)
+
+
+def percent_format(fmt, arg):
+    import re as _re
+    if _re.search(r'%[^s%]', fmt):
+        return None
+    n = fmt.count('%s')
+    vals = list(arg[1]) if arg[0] == 'tuple' else [arg]
+    if n != len(vals):
+        return None
+    parts = []
+    for i, piece in enumerate(fmt.split('%s')):
+        if piece:
+            parts.append(piece.replace('%%', '%'))
+        if i < n:
+            parts.append(vals[i])
+    return mk_fstr(parts)
+
+
 class SymExec(object):
     def __init__(self, fn, unroll=1, on_call=None, on_stmt=None, init_env=None, implicit_except=True,
-                 watch_attrs=None):
+                 watch_attrs=None, inline=True, no_inline=(), fold_loops=True):
         self.fn = fn
         self.unroll = unroll
         self.on_call = on_call
@@ -141,6 +407,20 @@ class SymExec(object):
             if a.kwarg:
                 self._params.add(a.kwarg.arg)
         self._guard = []    # conditions under which the expression being evaluated is reached (IfExp / and / or)
+        # interprocedural context: private helpers of the same module / class / enclosing function are inlined
+        self.inline = inline
+        self.fold_loops = fold_loops
+        self.no_inline = set(no_inline) | VOCABULARY
+        self._stack = [fn]
+        node = fn
+        self.cls = None
+        while getattr(node, '_parent', None) is not None:
+            node = node._parent
+            if isinstance(node, ast.ClassDef) and self.cls is None:
+                self.cls = node
+        self.modtree = node if isinstance(node, ast.Module) else None
+        self._consts = None
+        self._fn_by_id = None
 
     # -- expressions -------------------------------------------------------
     def ev(self, n, st):
@@ -160,6 +440,9 @@ class SymExec(object):
                                   if isinstance(k, str) and k.startswith(pre) and '.' not in k[len(pre):]))
             if fields:      # a record assembled field by field (e.g. a cdef struct / pair)
                 return ('record', n.id, fields)
+            c = self.module_const(n.id)
+            if c is not None:
+                return c
             return ('name', n.id)
         if isinstance(n, ast.Attribute):
             b = E(n.value)
@@ -201,6 +484,12 @@ class SymExec(object):
                     args.append(E(a))
             kws = tuple((kw.arg, E(kw.value)) for kw in n.keywords)
             t = ('call', f, tuple(args), kws)
+            if f == ('name', 'list') and len(args) == 1 and not kws and args[0][0] in ('genexp', 'listcomp'):
+                return ('listcomp',) + args[0][1:]
+            if f[0] == 'attr' and f[2] == 'format' and f[1][0] == 'const' and isinstance(f[1][1], str):
+                ft = format_call(f[1][1], tuple(args), kws)
+                if ft is not None:
+                    return ft
             st.events.append(('call', t, n))
             if self._guard:
                 st.data.setdefault('guards', {})[id(n)] = tuple(self._guard)
@@ -208,9 +497,24 @@ class SymExec(object):
                 r = self.on_call(st, t, n)
                 if r is not None:
                     return r
+            if self.inline:
+                fd = self.resolve(f, st)
+                if fd is not None:
+                    r = self.inline_expr(fd, f, tuple(args), kws, st)
+                    if r is not None:
+                        return r
             return t
         if isinstance(n, ast.BinOp):
-            return ('binop', _BINOPS.get(type(n.op), '?'), E(n.left), E(n.right))
+            l, r = E(n.left), E(n.right)
+            if isinstance(n.op, ast.Add):
+                cat = concat_str(l, r)
+                if cat is not None:
+                    return cat
+            if isinstance(n.op, ast.Mod) and l[0] == 'const' and isinstance(l[1], str):
+                f = percent_format(l[1], r)
+                if f is not None:
+                    return f
+            return ('binop', _BINOPS.get(type(n.op), '?'), l, r)
         if isinstance(n, ast.UnaryOp):
             v = E(n.operand)
             if isinstance(n.op, ast.USub) and v[0] == 'const' and isinstance(v[1], (int, float)) and not isinstance(v[1], bool):
@@ -258,7 +562,7 @@ class SymExec(object):
                     parts.append(str(v.value))
                 elif isinstance(v, ast.FormattedValue):
                     parts.append(E(v.value))
-            return ('fstr', tuple(parts))
+            return mk_fstr(parts)
         if isinstance(n, ast.Lambda):
             return ('lambda', src(n))
         if isinstance(n, (ast.ListComp, ast.SetComp, ast.GeneratorExp)) and len(n.generators) >= 1:
@@ -274,7 +578,7 @@ class SymExec(object):
                 st.events.append(('in-comp',) + tuple(e))
             st.data = sub.data      # hook state set while evaluating the element expression
             kind = {ast.ListComp: 'listcomp', ast.SetComp: 'setcomp', ast.GeneratorExp: 'genexp'}[type(n)]
-            return (kind, elt, tuple(gens))
+            return mk_comp(kind, elt, tuple(gens))
         if isinstance(n, ast.DictComp):
             sub = st.copy()
             gens = []
@@ -294,6 +598,234 @@ class SymExec(object):
         if isinstance(n, ast.Await):
             return E(n.value)
         return ('expr', src(n))
+
+    # -- interprocedural helpers ---------------------------------------------
+    def module_const(self, name):
+        """term of a module-level name bound exactly once to a literal made of constants (str/num/tuples/sets/dicts)"""
+        if self.modtree is None:
+            return None
+        if self._consts is None:
+            self._consts = {}
+            seen = {}
+            for s_ in self.modtree.body:
+                tg = []
+                if isinstance(s_, ast.Assign):
+                    tg, val = s_.targets, s_.value
+                elif isinstance(s_, ast.AnnAssign) and s_.value is not None:
+                    tg, val = [s_.target], s_.value
+                for t in tg:
+                    if isinstance(t, ast.Name):
+                        seen[t.id] = seen.get(t.id, 0) + 1
+                        lit = _literal_term(val)
+                        if lit is not None:
+                            self._consts[t.id] = lit
+            for k, cnt in seen.items():
+                if cnt != 1:
+                    self._consts.pop(k, None)
+            # a mutable literal (list / dict / set) counts as a constant only if the module uses it read-only everywhere
+            for k in [k for k, v in self._consts.items() if _mutable_literal(v)]:
+                if not _read_only_uses(self.modtree, k):
+                    del self._consts[k]
+        return self._consts.get(name)
+
+    def resolve(self, f, st):
+        """FunctionDef a call target term denotes (same module / class / enclosing function), or None"""
+        if self.modtree is None:
+            return None
+        fd = None
+        if f[0] == 'func':
+            if self._fn_by_id is None:
+                self._fn_by_id = {id(n): n for n in ast.walk(self.modtree) if isinstance(n, ast.FunctionDef)}
+            fd = self._fn_by_id.get(f[2])
+        elif f[0] == 'name':
+            for s_ in self.modtree.body:
+                if isinstance(s_, ast.FunctionDef) and s_.name == f[1]:
+                    fd = s_
+        elif f[0] == 'attr' and f[1][0] == 'name':
+            owner = None
+            if f[1][1] in ('self', 'cls') and self.cls is not None:
+                owner = self.cls
+            else:
+                for s_ in self.modtree.body:
+                    if isinstance(s_, ast.ClassDef) and s_.name == f[1][1]:
+                        owner = s_
+            if owner is not None:
+                for s_ in owner.body:
+                    if isinstance(s_, ast.FunctionDef) and s_.name == f[2]:
+                        fd = s_
+        if fd is None or fd in self._stack or fd.name in self.no_inline:
+            return None
+        deco = [src(d) for d in fd.decorator_list]
+        if any(d not in ('staticmethod', 'classmethod') for d in deco):
+            return None
+        if any(isinstance(n, (ast.Yield, ast.YieldFrom, ast.Await)) for n in ast.walk(fd)):
+            return None
+        return fd
+
+    def bind_params(self, fd, f, args, kws, st):
+        """-> env dict for the callee or None if the call does not bind"""
+        a = fd.args
+        params = [x.arg for x in a.posonlyargs + a.args]
+        deco = [src(d) for d in fd.decorator_list]
+        pos = list(args)
+        if isinstance(getattr(fd, '_parent', None), ast.ClassDef) and 'staticmethod' not in deco:
+            # method: first parameter is the receiver (instance or class)
+            if f[0] == 'attr':
+                pos = [f[1]] + pos
+        if any(x[0] == 'star' for x in pos) or any(k is None for k, _ in kws):
+            return None
+        env = {}
+        if len(pos) > len(params):
+            if a.vararg is None:
+                return None
+            env[a.vararg.arg] = ('tuple', tuple(pos[len(params):]))
+            pos = pos[:len(params)]
+        elif a.vararg is not None:
+            env[a.vararg.arg] = ('tuple', ())
+        for p_, v in zip(params, pos):
+            env[p_] = v
+        kwonly = [x.arg for x in a.kwonlyargs]
+        for k, v in kws:
+            if k in params or k in kwonly:
+                if k in env:
+                    return None
+                env[k] = v
+            elif a.kwarg is None:
+                return None
+        defaults = a.defaults
+        for p_, d in zip(params[len(params) - len(defaults):], defaults):
+            if p_ not in env:
+                lit = _literal_term(d)
+                env[p_] = lit if lit is not None else ('default', src(d))
+        for p_, d in zip(kwonly, a.kw_defaults):
+            if p_ not in env and d is not None:
+                lit = _literal_term(d)
+                env[p_] = lit if lit is not None else ('default', src(d))
+        if any(p_ not in env for p_ in params + kwonly):
+            return None
+        return env
+
+    def inline_expr(self, fd, f, args, kws, st):
+        """value of a call of helper `fd` as a term (branches become conditional terms); side effects are appended to the
+        caller's event trace.  None when the body uses constructs that cannot be folded into an expression."""
+        penv = self.bind_params(fd, f, args, kws, st)
+        if penv is None:
+            return None
+        nested = isinstance(getattr(fd, '_parent', None), ast.FunctionDef)
+        sub = State()
+        sub.env = dict(st.env) if nested else {k: v for k, v in st.env.items() if not isinstance(k, str) or '.' in k}
+        sub.env.update(penv)
+        sub.conds, sub.events, sub.data = st.conds, st.events, st.data     # shared trace
+
+        def body(stmts):
+            stmts = list(stmts)
+            while stmts:
+                s_ = stmts.pop(0)
+                if isinstance(s_, ast.Return):
+                    return self.ev(s_.value, sub) if s_.value is not None else ('const', None)
+                if isinstance(s_, ast.If):
+                    c = self.ev(s_.test, sub)
+                    self._guard.append((c, True))
+                    saved = dict(sub.env)
+                    a_ = body(list(s_.body) + stmts)
+                    sub.env.clear()
+                    sub.env.update(saved)
+                    self._guard[-1] = (c, False)
+                    b_ = body(list(s_.orelse) + stmts)
+                    self._guard.pop()
+                    if a_ is None or b_ is None:
+                        return None
+                    return ('ifexp', c, a_, b_)
+                if isinstance(s_, ast.Assign) and len(s_.targets) == 1 and isinstance(s_.targets[0], (ast.Name, ast.Tuple)):
+                    self.bind(s_.targets[0], self.ev(s_.value, sub), sub, s_)
+                    continue
+                if isinstance(s_, ast.AnnAssign) and isinstance(s_.target, ast.Name):
+                    if s_.value is not None:
+                        self.bind(s_.target, self.ev(s_.value, sub), sub, s_)
+                    continue
+                if isinstance(s_, ast.Expr) and isinstance(s_.value, ast.Constant):
+                    continue        # docstring
+                if isinstance(s_, (ast.Pass,)):
+                    continue
+                if isinstance(s_, ast.Assert):
+                    continue
+                return UNSUPPORTED
+            return ('const', None)
+        self._stack.append(fd)
+        mark = len(st.events)
+        try:
+            r = body(fd.body)
+        finally:
+            self._stack.pop()
+        if r is UNSUPPORTED or r is None or _contains(r, UNSUPPORTED):
+            del st.events[mark:]
+            return None
+        # heap-like bindings (attributes / items) made by the helper stay visible to the caller
+        for k, v in sub.env.items():
+            if (isinstance(k, str) and '.' in k) or isinstance(k, tuple):
+                st.env[k] = v
+        return r
+
+    def fork_call(self, call_node, st):
+        """statement-level inlining with path forking: yields (state, outcome, value) for each path through the helper
+        that `call_node` invokes, or None when the call is not an inlinable helper call."""
+        if not self.inline or not isinstance(call_node, ast.Call):
+            return None
+        probe = st.copy()
+        f = self.ev(call_node.func, probe)
+        fd = self.resolve(f, probe)
+        if fd is None:
+            return None
+        if not _forkable(fd):
+            return None
+        return self._fork(fd, f, call_node, st)
+
+    def _fork(self, fd, f, call_node, st):
+        args = []
+        for a in call_node.args:
+            if isinstance(a, ast.Starred):
+                v = self.ev(a.value, st)
+                if v[0] in ('tuple', 'list'):
+                    args.extend(v[1])
+                else:
+                    args.append(('star', v))
+            else:
+                args.append(self.ev(a, st))
+        kws = tuple((kw.arg, self.ev(kw.value, st)) for kw in call_node.keywords)
+        penv = self.bind_params(fd, f, tuple(args), kws, st)
+        if penv is None:
+            yield None
+            return
+        t = ('call', f, tuple(args), kws)
+        st.events.append(('call', t, call_node))
+        nested = isinstance(getattr(fd, '_parent', None), ast.FunctionDef)
+        caller_env = st.env
+        cal = st.copy()
+        cal.env = dict(caller_env) if nested else {k: v for k, v in caller_env.items() if not isinstance(k, str) or '.' in k}
+        cal.env.update(penv)
+        cal.ret = None
+        self._stack.append(fd)
+        try:
+            results = list(self.block(list(fd.body), cal))
+        finally:
+            self._stack.pop()
+        for st2, out in results:
+            heap = {k: v for k, v in st2.env.items() if (isinstance(k, str) and '.' in k) or isinstance(k, tuple)}
+            if nested:
+                # a closure may rebind enclosing locals only via nonlocal: ignore plain local rebinding
+                pass
+            env = dict(caller_env)
+            env.update(heap)
+            val = st2.ret if out == 'return' else ('const', None)
+            st2.env = env
+            st2.ret = None
+            if out == 'raise':
+                yield st2, 'raise', None
+            else:
+                # drop the helper's own 'return' marker event so that callers looking for returns see only their own
+                if st2.events and st2.events[-1][0] == 'return':
+                    st2.events.pop()
+                yield st2, 'value', val
 
     # -- assignment --------------------------------------------------------
     def bind(self, target, val, st, node):
@@ -346,6 +878,11 @@ class SymExec(object):
         self.tick()
         if self.on_stmt is not None:
             self.on_stmt(st, s)
+        forked = self._stmt_fork(s, st)
+        if forked is not None:
+            for r in forked:
+                yield r
+            return
         if isinstance(s, ast.Expr):
             v = self.ev(s.value, st)
             st.events.append(('expr', v, s))
@@ -367,7 +904,8 @@ class SymExec(object):
             val = self.ev(s.value, st)
             if isinstance(s.target, ast.Name):
                 old = self.ev(s.target, st)
-                st.env[s.target.id] = ('binop', _BINOPS.get(type(s.op), '?'), old, val)
+                new = concat_str(old, val) if isinstance(s.op, ast.Add) else None
+                st.env[s.target.id] = new if new is not None else ('binop', _BINOPS.get(type(s.op), '?'), old, val)
                 st.events.append(('aug', ('name', s.target.id), _BINOPS.get(type(s.op), '?'), val, s))
             else:
                 tgt = self.ev(s.target, st)
@@ -394,6 +932,8 @@ class SymExec(object):
                 st2.events.append(('branch', c, pol, s))
                 for r in self.block(body, st2):
                     yield r
+        elif isinstance(s, ast.For) and self.fold_loops and self._fold_loop(s, st):
+            yield st, 'fall'
         elif isinstance(s, (ast.For, ast.AsyncFor)):
             it = self.ev(s.iter, st)
             st0 = st.copy()
@@ -477,6 +1017,177 @@ class SymExec(object):
         else:
             raise AnalysisError('unsupported statement %s at line %s' % (type(s).__name__, s.lineno))
 
+    def _stmt_fork(self, s, st):
+        """if statement `s` is driven by a direct call of an inlinable helper, run the helper with path forking"""
+        if not self.inline:
+            return None
+        call = None
+        neg = False
+        kind = None
+        if isinstance(s, ast.Expr) and isinstance(s.value, ast.Call):
+            call, kind = s.value, 'expr'
+        elif isinstance(s, ast.Return) and isinstance(s.value, ast.Call):
+            call, kind = s.value, 'return'
+        elif isinstance(s, ast.Assign) and isinstance(s.value, ast.Call) and len(s.targets) == 1:
+            call, kind = s.value, 'assign'
+        elif isinstance(s, ast.If):
+            t = s.test
+            if isinstance(t, ast.UnaryOp) and isinstance(t.op, ast.Not):
+                t, neg = t.operand, True
+            if isinstance(t, ast.Call):
+                call, kind = t, 'if'
+        if call is None:
+            return None
+        gen = self.fork_call(call, st.copy())
+        if gen is None:
+            return None
+        results = list(gen)
+        if results and results[0] is None:
+            return None
+        return self._after_fork(s, kind, neg, results)
+
+    def _after_fork(self, s, kind, neg, results):
+        for st2, out, val in results:
+            if out == 'raise':
+                yield st2, 'raise'
+                continue
+            if kind == 'expr':
+                st2.events.append(('expr', val, s))
+                yield st2, 'fall'
+            elif kind == 'return':
+                st2.ret = val
+                st2.events.append(('return', val, s))
+                yield st2, 'return'
+            elif kind == 'assign':
+                self.bind(s.targets[0], val, st2, s)
+                yield st2, 'fall'
+            else:
+                c = ('unop', 'not', val) if neg else val
+                known = None
+                if val[0] == 'const':
+                    known = bool(val[1]) != neg
+                for pol, body in ((True, s.body), (False, s.orelse)):
+                    if known is not None and pol != known:
+                        continue
+                    st3 = st2.copy()
+                    st3.conds.append((c, pol, s))
+                    st3.events.append(('branch', c, pol, s))
+                    for r in self.block(body, st3):
+                        yield r
+
+    def _fold_loop(self, s, st):
+        """a `for` loop whose only effect is appending to one list that is still empty is the comprehension it spells
+        out: bind the list to that comprehension term instead of enumerating 0/1 iterations.  Returns False when the
+        loop is anything else."""
+        if s.orelse:
+            return False
+        accs = set()
+
+        def shape(stmts):
+            for x in stmts:
+                if isinstance(x, ast.Assign) and all(isinstance(t, ast.Name) or (isinstance(t, ast.Tuple) and all(isinstance(e, ast.Name) for e in t.elts))
+                                                     for t in x.targets):
+                    continue
+                if isinstance(x, ast.AnnAssign) and isinstance(x.target, ast.Name):
+                    continue
+                if isinstance(x, ast.If):
+                    if not shape(x.body) or not shape(x.orelse):
+                        return False
+                    continue
+                if isinstance(x, (ast.Pass, ast.Continue)):
+                    continue
+                if isinstance(x, ast.Expr) and isinstance(x.value, ast.Constant):
+                    continue
+                if isinstance(x, ast.Expr) and isinstance(x.value, ast.Call) and isinstance(x.value.func, ast.Attribute) \
+                        and x.value.func.attr == 'append' and isinstance(x.value.func.value, ast.Name) \
+                        and len(x.value.args) == 1 and not x.value.keywords and not isinstance(x.value.args[0], ast.Starred):
+                    accs.add(x.value.func.value.id)
+                    continue
+                return False
+            return True
+        if not shape(s.body) or len(accs) != 1:
+            return False
+        acc = next(iter(accs))
+        cur = st.env.get(acc)
+        if not (cur is not None and cur[0] == 'alloc' and cur[1] == 'list'):
+            return False
+        for e in st.events:       # the list must still be empty and unshared
+            for x in e[1:-1]:
+                if isinstance(x, tuple) and any(y == cur for y in subterms(x)):
+                    return False
+        if any(v == cur for k, v in st.env.items() if k != acc):
+            return False
+        assigned = {n.id for x in ast.walk(s) for n in ast.walk(x) if isinstance(n, ast.Name) and isinstance(n.ctx, ast.Store)}
+        if acc in assigned:
+            return False
+        sub = st.copy()
+        it = self.ev(s.iter, sub)
+        self.bind(s.target, ('elem', it, s.iter.lineno), sub, s)
+
+        def walk(stmts, env):
+            stmts = list(stmts)
+            sub.env = env
+            while stmts:
+                x = stmts.pop(0)
+                if isinstance(x, ast.Assign):
+                    v = self.ev(x.value, sub)
+                    for t in x.targets:
+                        self.bind(t, v, sub, x)
+                elif isinstance(x, ast.AnnAssign):
+                    if x.value is not None:
+                        self.bind(x.target, self.ev(x.value, sub), sub, x)
+                elif isinstance(x, ast.If):
+                    c = self.ev(x.test, sub)
+                    env0 = dict(sub.env)
+                    self._guard.append((c, True))
+                    a = walk(list(x.body) + stmts, dict(env0))
+                    self._guard[-1] = (c, False)
+                    b = walk(list(x.orelse) + stmts, dict(env0))
+                    self._guard.pop()
+                    if a is None or b is None:
+                        return None
+                    if a == b:
+                        return a
+                    return ('if', c, a, b)
+                elif isinstance(x, ast.Continue):
+                    return SKIP
+                elif isinstance(x, ast.Expr) and isinstance(x.value, ast.Call):
+                    v = self.ev(x.value.args[0], sub)
+                    rest = walk(stmts, sub.env)
+                    if rest is not SKIP:
+                        return None         # more than one append per iteration
+                    return ('leaf', v)
+            return SKIP
+
+        def flat(tree):
+            """-> (filter conditions, element term) or None"""
+            if tree is SKIP:
+                return None
+            if tree[0] == 'leaf':
+                return (), tree[1]
+            _, c, a, b = tree
+            if a is SKIP:
+                r = flat(b)
+                return None if r is None else ((('unop', 'not', c),) + r[0], r[1])
+            if b is SKIP:
+                r = flat(a)
+                return None if r is None else ((c,) + r[0], r[1])
+            ra, rb = flat(a), flat(b)
+            if ra is None or rb is None or ra[0] or rb[0]:
+                return None
+            return (), ('ifexp', c, ra[1], rb[1])
+        mark = len(st.events)
+        tree = walk(s.body, dict(sub.env))
+        r = flat(tree) if tree is not None else None
+        if r is None:
+            return False
+        for e in sub.events[mark:]:
+            st.events.append(('in-comp',) + tuple(e))
+        st.data = sub.data
+        st.env[acc] = mk_comp('listcomp', r[1], ((it, tuple(r[0])),))
+        st.events.append(('loop-folded', it, st.env[acc], s))
+        return True
+
     def _iterate(self, s, it, st, remaining):
         elem = ('elem', it, s.lineno)
         self.bind(s.target, elem, st, s)
@@ -505,6 +1216,27 @@ class SymExec(object):
         for st2, o in self.block(list(body), st):
             out.append((st2, o))
         return out
+
+
+def terms_of(st):
+    """every term a path evaluated: operands of all events (also those inside comprehensions / folded loops) and the
+    returned value"""
+    for e in st.events:
+        for x in e[1:-1]:
+            if isinstance(x, tuple) and x and isinstance(x[0], str):
+                yield x
+    if st.ret is not None:
+        yield st.ret
+
+
+def all_calls(st, callee=None):
+    """call terms anywhere in the path's terms (deduplicated, in first-seen order)"""
+    seen = []
+    for t in terms_of(st):
+        for s_ in subterms(t):
+            if s_[0] == 'call' and (callee is None or s_[1] == callee) and s_ not in seen:
+                seen.append(s_)
+    return seen
 
 
 def calls_in(st, pred=None):
